@@ -31,7 +31,7 @@ func (c02) Batches(tier string, seed uint64) []core.Batch {
 	b := spread("triples", 16, 0)
 	b = append(b, spread("sort", 8, tierN(tier, 40, 400))...)
 	b = append(b, core.Batch{Name: "volume", N: tierN(tier, 1_000_000, 12_000_000)}) // one case, one process: see volume.go
-	b = append(b, core.Batch{Name: "sortmix", N: tierN(tier, 1600, 8000)})              // 8 goroutines sort their own (disjoint) slices at once
+	b = append(b, core.Batch{Name: "sortmix", N: tierN(tier, 1600, 8000)})           // 8 goroutines sort their own (disjoint) slices at once
 	return append(b, conc(tierN(tier, 6, 40), "sort")...)
 }
 
